@@ -252,6 +252,13 @@ func c01Enumerate(r *Rand, wseed uint64, N, h, id int, emit func(c01Case)) {
 					muts = append(muts, fmt.Sprintf("trunc/%d", n-tlog.HashSize), "ext/32")
 				} else {
 					muts = append(muts, "negid", "notree", "extsig")
+					// inside the record text (the hashes the caller will trust) and inside the tree note
+					fl, _ := c01Positions(env.caches[0][f])
+					for _, cls := range []string{"text", "tree", "sig"} {
+						for _, off := range fl[cls] {
+							muts = append(muts, fmt.Sprintf("flip/%d.%d", off, bits[0]))
+						}
+					}
 				}
 				for _, m := range muts {
 					emit(c01Case{line: mk(su.steps, nil, fmt.Sprintf("cc=0:%d:%s", idx, m)), tag: "cache/" + su.name})
